@@ -76,7 +76,10 @@ def run(prop: str, contracts: list[Contract], lemmas: list[Lemma], z3_ms: int | 
 	t1 = time.time()
 	results = discharge_many(jobs)
 	# obligations left open are retried once, one at a time, with tripled budgets: a timeout under full load must not flip a verdict
+	open_idx = [i for i, (ob, res) in enumerate(zip(eng.obligations, results)) if ob.expect == 'proved' and res.verdict == 'unknown']
 	for i, (ob, res) in enumerate(zip(eng.obligations, results)):
+		if len(open_idx) > 4:
+			break  # many open obligations are not a load artefact: do not spend minutes retrying them one by one
 		if ob.expect == 'proved' and res.verdict == 'unknown':
 			from .smt import discharge_text
 			r2 = discharge_text(texts[i], ob.want, (z3_ms or 10000) * 2, (cvc5_ms or 20000) * 2)
